@@ -80,6 +80,11 @@ type chooser struct {
 	mode      int
 	rng       *Rand
 	switchDen int // 1 = uniform; k>1: keep current task with probability (k-1)/k
+	pctDen    int // >0: priority schedule (PCT style): highest priority runs; at each decision the running task is demoted below everybody with probability 1/pctDen
+	prio      map[int]int
+	low       int
+	last      int
+	streak    int
 	in        Choices
 	si, di    int
 	out       Choices
@@ -98,7 +103,33 @@ func (c *chooser) Pick(cur int, runnable []int, sites []int) int {
 	pick := 0
 	switch c.mode {
 	case modeGen:
-		if cur != 0 && c.switchDen > 1 && c.rng.Intn(c.switchDen) != 0 {
+		if c.pctDen > 0 {
+			if c.prio == nil {
+				c.prio = map[int]int{}
+			}
+			for _, id := range runnable {
+				if _, ok := c.prio[id]; !ok {
+					c.prio[id] = 1 + c.rng.Intn(1<<30)
+				}
+			}
+			// a task picked 64 times in a row is demoted too: a spin loop must not starve the
+			// task it is waiting for until the step budget forces round-robin
+			if cur != 0 && (c.rng.Intn(c.pctDen) == 0 || c.streak >= 64) {
+				c.low--
+				c.prio[cur] = c.low
+			}
+			pick = runnable[0]
+			for _, id := range runnable[1:] {
+				if c.prio[id] > c.prio[pick] {
+					pick = id
+				}
+			}
+			if pick == c.last {
+				c.streak++
+			} else {
+				c.last, c.streak = pick, 0
+			}
+		} else if cur != 0 && c.switchDen > 1 && c.rng.Intn(c.switchDen) != 0 {
 			pick = cur
 		} else {
 			pick = runnable[c.rng.Intn(len(runnable))]
@@ -393,6 +424,7 @@ type caseResult struct {
 
 type caseMeta struct {
 	SwitchDen int    `json:"switch_den"`
+	PCTDen    int    `json:"pct_den,omitempty"`
 	ArmPct    int    `json:"arm_pct"`
 	ArmSeed   uint64 `json:"arm_seed"`
 }
